@@ -30,11 +30,10 @@ import toy
 from props import seedkit as K
 
 REQUIRED_THEOREMS = [
-    'C16_reproducible', 'C16_reproducible_any_world', 'C16_reproducible_partial',
+    'C16_reproducible', 'C16_reproducible_any_world', 'C16_reproducible_generator',
     'C16_pam_global_counterexample', 'C16_seed_sensitive', 'C16_disjoint', 'C16_pam_alloc_disjoint',
-    'C16_disjoint_partial', 'C16_disjoint_prior_partial', 'C16_independent_outputs_counterexample',
-    'C16_noise_nonempty', 'C16_generator_advanced', 'C16_generator_rejected_counterexample',
-    'C16_prior_generator_repaired']
+    'C16_disjoint_prior_partial', 'C16_independent_outputs_counterexample', 'C16_noise_nonempty',
+    'C16_generator_advanced', 'C16_generator_advanced_prior', 'C16_generator_rejected_counterexample']
 RULE = ('entry points: the four error models (also reduced), elementary / covariate-wrapped / composed '
         'population models (also reduced), PredictiveModel, PopulationPredictiveModel, Prior-, Posterior- and '
         'PAM predictive models over both, sample_initial_parameters of LogPosterior, HierarchicalLogPosterior '
@@ -51,8 +50,14 @@ ASSUMPTIONS = [
     'np.random.seed(integers(0, 1e6)) of two different calls can collide with probability 1e-6: the model '
     'treats the derived streams as different']
 
-AS_IS = (True, True)
-INTENDED = (False, False)
+# the model variant that is compared with chi: the code as it is (after the fix: commits 80b4fea, d48fa6e,
+# b1514f4).  The third component is the integer PriorPredictiveModel draws from a Generator seed (irrelevant
+# for other seeds).  The pre-fix variant exists in the Lean model for the counterexample theorems only.
+AS_IS = (False, False, 0)
+
+
+def as_is(prior_draw=0):
+    return (False, False, int(prior_draw))
 
 
 # ----------------------------------------------------------------------------------------
@@ -95,8 +100,16 @@ def check_numpy_identities(ctx):
 # case generation
 # ----------------------------------------------------------------------------------------
 def gen_times(rng, nT):
+    """unsorted times; replicate measurements (the same time point requested more than once) are part of the
+    input space: every requested entry must get its own noise"""
     t = rng.choice(np.arange(1, 41) * 0.25, size=nT, replace=False)
-    return [float(x) for x in t]
+    t = [float(x) for x in t]
+    if nT > 1 and rng.random() < 0.35:
+        j = int(rng.integers(1, nT))
+        t[j] = t[int(rng.integers(0, j))]
+        if nT > 2 and rng.random() < 0.3:
+            t[int(rng.integers(nT))] = t[0]
+    return t
 
 
 def gen_sig(rng, kinds):
@@ -702,18 +715,6 @@ def seed_kind(seed):
     return 'generator'
 
 
-def choose_variant(ctx, r, entry, seed, world, observe):
-    """the model variant (code as it is / intended) that matches what chi did; as-is is tried first"""
-    best = None
-    for v in (AS_IS, INTENDED, (True, False), (False, True)):
-        m = K.model_run(ctx, v, entry, seed, world)
-        if best is None:
-            best = (v, m)
-        if observe(m):
-            return v, m, True
-    return best[0], best[1], False
-
-
 def check_runner(ctx, chi, r, cfg, cls, nontrivial, rng):
     s, s2, g = gen_seed_triplet(rng)
     if cfg.get('force_seed') is not None:
@@ -744,30 +745,9 @@ def check_runner(ctx, chi, r, cfg, cls, nontrivial, rng):
         ctx.spec('C16.seed_sensitive/%s' % tagc, not K.entries_equal(out1, out3), inp)
     entry = r.entry(out1) if callable(r.entry) else r.entry
 
-    def observe_int(m):
-        if m.err:
-            return False
-        if r.pattern and K.read_partition(m.cells) != K.partition(out1):
-            return False
-        if r.forward is not None:
-            rp = K.Replay(w1, s, r.bounds, r.prior).run(m.calls)
-            pred = r.forward(m, rp)
-            if pred is not None and not core.close(sorted(pred.items()), sorted(out1.items())):
-                return False
-        if r.name == 'priorPredictive':
-            z_ = prior_standardised(r, cfg, out1, s)
-            if z_ is not None and not core.close(sorted(z_.items()), sorted(prior_model_noise(r, m, s, w1).items()),
-                                                 rtol=1e-7, atol=1e-7):
-                return False
-        # the state the global generator is left in (tells a global draw from a seeded one)
-        rp_ = K.Replay(w1, s, r.bounds, r.prior).run(m.calls)
-        want_ = rp_.state_of(m.glob_after[0])
-        if want_ is not None and not K.legacy_state_equal(glob1, want_):
-            return False
-        return True
-
-    v, m, matched = choose_variant(ctx, r, entry, s, w1, observe_int)
-    ctx.branches.add('variant:%s:%s' % (r.name, 'asIs' if v == AS_IS else 'intended' if v == INTENDED else str(v)))
+    v = AS_IS
+    m = K.model_run(ctx, v, entry, s, w1)
+    ctx.agree('C16.accepts_int_seed/%s' % r.name, True, not m.err, inp)
     ctx.agree('C16.labels/%s' % r.name, sorted(out1.keys()) if r.name not in ('initLogPosterior', 'initHierarchical')
               else len(set(k[0] for k in out1)),
               sorted(m.by_label().keys()) if r.name not in ('initLogPosterior', 'initHierarchical')
@@ -804,11 +784,10 @@ def check_runner(ctx, chi, r, cfg, cls, nontrivial, rng):
     entry_g = entry if not callable(r.entry) else r.entry(outA if raised is None else out1)
     vg = v
     mg = K.model_run(ctx, vg, entry_g, g, w1)
-    if raised is None and mg.err and r.name == 'priorPredictive':
-        # repaired behaviour: one integer is drawn from the Generator and used as the seed
-        vg = (v[0], v[1], int(K.make_seed(g).integers(low=0, high=1E6)))
+    if r.name == 'priorPredictive':
+        # one integer is drawn from the Generator and used as the seed: the model is told its value
+        vg = as_is(K.make_seed(g).integers(low=0, high=1E6))
         mg = K.model_run(ctx, vg, entry_g, g, w1)
-        ctx.branches.add('variant:priorPredictive:generator-accepted')
     ctx.agree('C16.generator_accepted/%s' % r.name, raised is None, not mg.err, inp)
     if r.documented_generator:
         ctx.spec('C16.generator_accepted/%s' % tagc, raised is None, inp, {'raised': raised})
@@ -840,8 +819,7 @@ def check_runner(ctx, chi, r, cfg, cls, nontrivial, rng):
                      inp, {'restarted': restarted})
         # second call continues the stream: model run from the advanced counter
         if mg.seed_after is not None and not callable(r.entry):
-            vg2 = vg if len(vg) < 3 else (vg[0], vg[1], int(_clone_generator(state_of=stateA).integers(
-                low=0, high=1E6)))
+            vg2 = as_is(_clone_generator(state_of=stateA).integers(low=0, high=1E6))
             m2 = K.model_run_wire(ctx, vg2, entry, mg.seed_after, K.world_wire(w1))
             rp2 = K.Replay(w1, g, r.bounds, r.prior)
             rp2.gens[K.skey(['S', g[1]])] = _clone_generator(state_of=stateA)
@@ -1044,9 +1022,8 @@ def check_hier(ctx, chi, r, m, rp, out1, s, w1, inp):
     # bottom level: per sample the population model is run once more at the modelled generator position
     ctr = 0
     for k in range(h['n']):
-        mk = ctx.model('C16.run', bool(AS_IS[0]), bool(AS_IS[1]), ['population', K.pop_wire(pop), n_ids],
-                       ['gen', ['S', s + 1], ctr], K.world_wire(w1))
-        mk = K.ModelRun(mk)
+        mk = K.model_run_wire(ctx, AS_IS, ['population', K.pop_wire(pop), n_ids], ['gen', ['S', s + 1], ctr],
+                              K.world_wire(w1))
         ctr = mk.seed_after[2]
         f = pop_forward(chi, pop, tops[k], n_ids, None)(mk, rp)
         if f is None:
@@ -1064,18 +1041,15 @@ def check_hier(ctx, chi, r, m, rp, out1, s, w1, inp):
 
 # ----------------------------------------------------------------------------------------
 def corpus(ctx, chi):
-    """witnesses of the counterexample theorems"""
+    """inputs of the counterexample theorems about the pre-fix code: the code as it is must not show them"""
     # C16_independent_outputs_counterexample: two outputs, Gaussian error models, integer seed
     mech = K.FlatToy(2, 1, 3)
     pm = chi.PredictiveModel(mech, [chi.GaussianErrorModel(), chi.GaussianErrorModel()])
     inp = {'witness': 'C16_independent_outputs_counterexample', 'seed': 7}
     a = K.array_entries(pm.sample([1.0, 0.3, 0.3], [1.0, 2.0], n_samples=2, seed=7, return_df=False))
     m = K.model_run(ctx, AS_IS, ['predictive', ['G', 'G'], 2, 2], 7, ('LS', 0, 0))
-    mi = K.model_run(ctx, INTENDED, ['predictive', ['G', 'G'], 2, 2], 7, ('LS', 0, 0))
     ctx.case('corpus/predictive-int', nontrivial='corpus/predictive-int', sample=inp)
-    legacy = K.partition(a) == K.read_partition(m.cells)
-    ctx.agree('C16.witness/predictive.int_seed', K.partition(a),
-              K.read_partition(m.cells) if legacy else K.read_partition(mi.cells), inp)
+    ctx.agree('C16.witness/predictive.int_seed', K.partition(a), K.read_partition(m.cells), inp)
     ctx.spec('C16.independent_outputs/PredictiveModel.int_seed', 'outputs' not in duplicates(a), inp,
              {'equal_entries': K.partition(a)[:2]})
 
@@ -1128,9 +1102,9 @@ def bare_models_boundary_seeds(ctx, chi):
 def run(ctx):
     chi = core.import_chi()
     check_numpy_identities(ctx)
-    corpus(ctx, chi)
+    ctx.guard(corpus, ctx, chi)
     ctx.guard(bare_models_boundary_seeds, ctx, chi)
-    n = 40 if ctx.tier == 'quick' else 500
+    n = 80 if ctx.tier == 'quick' else 1300
     k = 0
     for rep in range(n):
         for mk in RUNNERS:
@@ -1141,8 +1115,7 @@ def run(ctx):
             else:
                 r, cfg, cls, nontriv = mk(chi, rng)
             cfg['case'] = k - 1
-            K.guarded(ctx, 'C16.no_exception/%s' % r.cls, cfg,
-                      lambda: check_runner(ctx, chi, r, cfg, cls, nontriv, rng))
+            ctx.guard(check_runner, ctx, chi, r, cfg, cls, nontriv, rng)
     # boundary seed 0 (a valid integer seed that is falsy) on every kind of entry point, and on a
     # population model that contains each elementary sampler
     wanted = ['gaussian', 'logNormal', 'truncGauss', 'hetero', 'pooled']
@@ -1151,8 +1124,7 @@ def run(ctx):
         r, cfg, cls, nontriv = mk(chi, rng, filt=False) if mk is runner_init_hier else mk(chi, rng)
         cfg['case'] = 'seed0/%d' % j
         cfg['force_seed'] = 0
-        K.guarded(ctx, 'C16.no_exception/%s' % r.cls, cfg,
-                  lambda: check_runner(ctx, chi, r, cfg, cls, nontriv, rng))
+        ctx.guard(check_runner, ctx, chi, r, cfg, cls, nontriv, rng)
     for j, elem in enumerate(wanted):
         for t in range(60):
             rng = ctx.sub_rng(2 * 10 ** 6 + 100 * j + t)
@@ -1160,8 +1132,7 @@ def run(ctx):
             if elem in cls:
                 cfg['case'] = 'seed0/pop/%s' % elem
                 cfg['force_seed'] = 0
-                K.guarded(ctx, 'C16.no_exception/%s' % r.cls, cfg,
-                          lambda: check_runner(ctx, chi, r, cfg, cls, nontriv, rng))
+                ctx.guard(check_runner, ctx, chi, r, cfg, cls, nontriv, rng)
                 break
 
 
